@@ -46,8 +46,8 @@ def _canon(eng, out):
                 else:
                     res[name] = ('ds', comps, [tuple(r) for r in (rows or [])])
         return ('ok', res)
-    if out[0] == 'raw' and 'interrupted' in str(out[-1]).lower():
-        return ('timeout',)
+    if out[0] == 'raw' and ('interrupted' in str(out[-1]).lower() or '_TO' in str(out[-1]) or '_alarm' in str(out[-1])):
+        return ('timeout',)      # the wall-clock guard fired inside DuckDB / pandas
     return out[:3] + (str(out[-1])[:300],)
 
 
@@ -224,23 +224,24 @@ def rule_kind(case):
 def scripts(ck, n, label, **genkw):
     g = GV.ViralGen(ck.rng, **genkw)
     cases = [g.case() for _ in range(n)]
+    seeds = (None, 1) if ck.quick() else (None, 1, 2)      # input row orders: as generated + shuffles
     answers = ck.driver('Viral', [GV.request(c) for c in cases])
     jobs = []
     for c in cases:
         st = GV.structures(c['env'])
-        for seed in (None, 1, 2):
-            jobs.append((c['vtl'], st, c['env'], seed, 90, False))
+        for seed in seeds:
+            jobs.append((c['vtl'], st, c['env'], seed, 240, False))
     outs = run_pool(jobs)
     hist = collections.Counter()
     ophist = collections.Counter()
     for i, (c, a) in enumerate(zip(cases, answers)):
-        base, sh1, sh2 = outs[3 * i: 3 * i + 3]
+        base, shs = outs[len(seeds) * i], outs[len(seeds) * i + 1: len(seeds) * (i + 1)]
         c['stream'] = label
         enum_attrs = {v for v, (_, rule) in c['spec'].items() if rule.kind == 'enum'}
         sens_attrs = {v for v in enum_attrs if not c['spec'][v][1].order_free()}
         has_agg = bool(AGG_OPS & set(c['ops']))
         # --- engine vs engine under row shuffles ("whatever the order of the input datapoints")
-        for sh in (sh1, sh2):
+        for sh in shs:
             if base[0] == 'timeout' or sh[0] == 'timeout':
                 continue
             same, why = same_outcome(base, sh)
@@ -321,7 +322,7 @@ def semantics(ck, n):
             if x[0][1] == 'norule':
                 missing_of[i] |= set(t[1] for t in x[2:])
     st = GV.structures(GV.SEM_STRUCT)
-    outs = run_pool([(c['vtl'], st, None, None, 60, True) for c in cases])
+    outs = run_pool([(c['vtl'], st, None, None, 120, True) for c in cases])
     hist = collections.Counter()
     for i, (c, o) in enumerate(zip(cases, outs)):
         a = answers[i]
@@ -366,19 +367,19 @@ def replays(ck):
     vtl_an = rule.vtl('R', 'VAt_1') + ' DS_r <- sum(DS_1 over (partition by Id_2));'
     for p in perms:
         env = {'DS_1': dict(st, rows=[(i, Fraction(1), v) for v, i in p])}
-        jobs.append((vtl, GV.structures(env), env, None, 90, False))
+        jobs.append((vtl, GV.structures(env), env, None, 240, False))
     st2 = {'ids': [('Id_1', 'Integer'), ('Id_2', 'String')], 'meas': [('Me_1', 'Number')], 'viral': [('VAt_1', 'String')]}
     for p in perms:
         env = {'DS_1': dict(st2, rows=[(i, 'g', Fraction(1), v) for v, i in p])}
-        jobs.append((vtl_an, GV.structures(env), env, None, 90, False))
+        jobs.append((vtl_an, GV.structures(env), env, None, 240, False))
     # enumerated rule written with Integer constants
     env_i = {'DS_1': {'ids': [('Id_1', 'Integer')], 'meas': [('Me_1', 'Number')], 'viral': [('VAt_1', 'Integer')], 'rows': [(1, Fraction(1), 1), (2, Fraction(2), 5)]}}
     vtl_i = 'define viral propagation R (variable VAt_1) is when 1 then 2; else 0 end viral propagation; DS_r <- DS_1 + DS_1;'
-    jobs.append((vtl_i, GV.structures(env_i), env_i, None, 90, False))
+    jobs.append((vtl_i, GV.structures(env_i), env_i, None, 240, False))
     # membership
     env_m = {'DS_1': dict(st, rows=[(1, Fraction(1), 'A'), (2, Fraction(2), 'B')])}
     vtl_m = GV.PRIO.vtl('R', 'VAt_1') + ' DS_r <- DS_1#Me_1;'
-    jobs.append((vtl_m, GV.structures(env_m), env_m, None, 90, False))
+    jobs.append((vtl_m, GV.structures(env_m), env_m, None, 240, False))
     outs = run_pool(jobs, procs=8)
     for name, key, chunk, script in (('aggregation', 'row-order-dependence:aggregation:enumerated-rule', outs[:6], vtl),
                                      ('analytic', 'row-order-dependence:analytic:enumerated-rule', outs[6:12], vtl_an)):
@@ -412,12 +413,15 @@ def main(ck):
     pr = ck.proof('C28')
     q = ck.quick()
     nf = int(os.environ.get('VERIF_N_FRAG', 25 if q else 400))
-    ns = int(os.environ.get('VERIF_N', 60 if q else 900))
-    fragments(ck, nf)
-    replays(ck)
-    h1 = scripts(ck, ns, 'any-rule')
-    h2 = scripts(ck, ns // 2, 'order-free-rules', order_free_only=True)
-    h3 = semantics(ck, 40 if q else 400)
+    ns = int(os.environ.get('VERIF_N', 50 if q else 900))
+    import time
+    t = [time.time()]
+    fragments(ck, nf); t.append(time.time())
+    replays(ck); t.append(time.time())
+    h1 = scripts(ck, ns, 'any-rule'); t.append(time.time())
+    h2 = scripts(ck, ns // 2, 'order-free-rules', order_free_only=True); t.append(time.time())
+    h3 = semantics(ck, 40 if q else 400); t.append(time.time())
+    ck.note('phase_seconds', dict(zip(['fragments', 'replays', 'scripts', 'scripts-order-free', 'semantics'], [round(b - a, 1) for a, b in zip(t, t[1:])])))
     agree = h1['agree'] + h2['agree']
     if agree < ns // 3:
         ck.unproved('correspondence:C28', 'only %d of %d scripts could be compared: %s %s' % (agree, ns + ns // 2, dict(h1), dict(h2)))
